@@ -15,7 +15,7 @@ import io
 
 from hypothesis import strategies as st
 
-from vlib import bootstrap, gen, model, libroute, eamtab, parsers, compare
+from vlib import bootstrap, gen, model, libroute, eamtab, parsers, compare, rewrite
 from vlib.num import DomainError, EN
 
 bootstrap.activate()
@@ -34,7 +34,7 @@ ASSUMPTIONS = [
     "skipped DL_POLY tests expect); C04 checks that routing against the consumer's rule in detail",
 ]
 REQUIRED = {"kind:eam": 40, "kind:fs": 40, "n%4!=0": 40, "zero_filled_pair": 20, "reversed_pair": 20,
-            "route:function": 15, "route:class": 15, "route:potable": 15}
+            "route:function": 15, "route:class": 15, "route:potable": 15, "rewrite:2_writes": 2}
 FMT = ("f", 6)
 
 
@@ -46,13 +46,21 @@ def _case(draw, kind, n_min=1, n_max=4):
     return m
 
 
+@st.composite
+def _rewrite(draw):
+    m = draw(_case(draw(st.sampled_from(["eam", "fs"])), 1, 3))
+    m["route"] = draw(st.sampled_from(["function", "class"]))
+    m["rewrite"] = draw(rewrite.plan(m))
+    return m
+
+
 def strategy(tier):
     return _case("eam")
 
 
 def strata(tier):
     return [("eam:1-2", _case("eam", 1, 2), 2), ("eam:3-4", _case("eam", 3, 4), 3),
-            ("fs:1-2", _case("fs", 1, 2), 2), ("fs:3-4", _case("fs", 3, 4), 3)]
+            ("fs:1-2", _case("fs", 1, 2), 2), ("fs:3-4", _case("fs", 3, 4), 3), ("rewrite", _rewrite(), 2)]
 
 
 def budget(tier):
@@ -137,6 +145,47 @@ def verify(m, text, ctx):
     return v
 
 
+def _check_rewrite(m, cls):
+    fs = "density_fs" in m
+    rw, route = m["rewrite"], m["route"]
+    one = rw["same_object"] and route == "class"
+    cls = cls + ["rewrite:%d_writes" % len(rw["ks"]), "rewrite:" + ("one_object" if one else "same_callables"), "rewrite:" + rw["kind"]]
+    w = rewrite.Wrapper(m, rw)
+    pairs, eams = eamtab.api_objects(m, wrap=w)
+    g = m["grid"]
+    nr, dr, nrho, drho = eamtab.grids(m)
+    tab = None
+    v = []
+    for n, k in enumerate(rw["ks"]):
+        w.set(k)
+        mm = rewrite.scaled_model(m, rw, k)
+        ctx = "%s\n%s" % (rewrite.describe(m, rw, n, k), eamtab.potable_text(mm, "DL_POLY_EAM_fs" if fs else "DL_POLY_EAM"))
+        try:
+            _domain(mm, model.Ref(mm["env"]))
+        except (DomainError, OverflowError, ZeroDivisionError):
+            return {"v": [], "cls": cls, "nt": False, "skip": True}
+        fp = io.StringIO()
+        try:
+            if route == "function":
+                (ap.writeTABEAMFinnisSinclair if fs else ap.writeTABEAM)(nrho, drho, nr, dr, eams, pairs, out=fp)
+            else:
+                if tab is None or not one:
+                    cl = TABEAM_FinnisSinclair_EAMTabulation if fs else TABEAM_EAMTabulation
+                    tab = cl(pairs, eams, g["cutoff"], g["nr"], g["cutoff_rho"], g["nrho"])
+                tab.write(fp)
+        except Exception as e:
+            return {"v": [("rewrite:exception:%s@%s" % (type(e).__name__, libroute.innermost_atsim_frame(e)), "%r\n%s" % (e, ctx))],
+                    "cls": cls, "nt": False}
+        try:
+            vv = verify(mm, fp.getvalue(), ctx)
+        except DomainError:
+            return {"v": [], "cls": cls, "nt": False, "skip": True}
+        v += [(("rewrite:" + bk) if n else bk, d) for bk, d in vv]
+        if v:
+            break
+    return {"v": v, "cls": cls, "nt": True}
+
+
 def check_case(m):
     fs = "density_fs" in m
     route = m["route"]
@@ -152,6 +201,8 @@ def check_case(m):
     if any(a in els and b in els and order.index(a) > order.index(b) for a, b, _ in m["pair"]):
         cls.append("reversed_pair")
     nt = (len(els) >= 2 and bool(set(cls) & {"zero_filled_pair", "reversed_pair"})) or "n%4!=0" in cls
+    if m.get("rewrite"):
+        return _check_rewrite(m, cls)
     target = "DL_POLY_EAM_fs" if fs else "DL_POLY_EAM"
     ctx = eamtab.potable_text(m, target)
     ref = model.Ref(m["env"])
